@@ -15,7 +15,9 @@ RULE = ("full in-memory stack: real Router + 1..3 generated drivers (1-3 groups,
         "the real indi.client.client.Client (control and BLOB connection) over fragmenting wires, plus an in-process SnoopingClient "
         "of another driver; histories of 5-40 operations mixing driver-side (assign, set_value, bool_value, state, enabled on "
         "vector/group, selected_value) and client-side (handshake, assign+submit) operations with partial-delivery steps so that "
-        "messages are in flight while the next operation happens. At every quiescent checkpoint (a) the library client's public "
+        "messages are in flight while the next operation happens; in every third session the BLOB connection's server->client direction "
+        "delivers nothing for 3..60 scheduling rounds while the handshake is in flight and the drivers already change state, and is "
+        "released only after the control connection went quiet (stale copies arrive last). At every quiescent checkpoint (a) the library client's public "
         "view and (b) a reference client fed with the very bytes of the control connection are compared with the expectation "
         "derived from the generated definition, the tracked enable flags/states and the drivers' public values. "
         "non-trivial = >=1 driver-side and >=1 client-side operation and >= 2 properties in the final mirror; "
@@ -23,7 +25,7 @@ RULE = ("full in-memory stack: real Router + 1..3 generated drivers (1-3 groups,
 ASSUMPTIONS = ["BLOB payloads are compared by C08; Element.enabled toggles at run time are not in the quantifier",
                "numbers are compared numerically within the format's resolution",
                "a device without enabled properties may or may not be listed"]
-REQUIRED_EVENTS = ["sessions", "checkpoints", "library_client_properties_compared", "reference_mirror_messages",
+REQUIRED_EVENTS = ["sessions", "sessions_with_lagging_blob_link", "driver_ops_during_handshake", "checkpoints", "library_client_properties_compared", "reference_mirror_messages",
                    "snooping_client_checkpoints", "ops_with_bytes_in_flight", "depth3_sessions"]
 
 QUICK_SHARDS = 4
@@ -37,7 +39,10 @@ def gen_case(ctx, i):
     specs = [D.gen_spec(rng, name=f"DEV{k}", depth=(force_depth if k == 0 else None)) for k in range(ndev)]
     n = rng.choice([5, 10, 20, 40])
     return {"i": i, "specs": specs, "nops": n, "mode_c2s": rng.choice(MODES), "mode_s2c": rng.choice(MODES),
-            "snoop": ndev >= 2 and rng.random() < 0.6}
+            "snoop": ndev >= 2 and rng.random() < 0.6,
+            # every third session: the BLOB connection's server->client direction lags behind for this many scheduling rounds
+            # while the handshake is in flight and the drivers already change state
+            "lag": rng.choice([3, 8, 20, 60]) if i % 3 == 1 else 0}
 
 
 def client_value(rng, kind, e):
@@ -148,6 +153,33 @@ async def session(ctx, case):
         ctx.count("sessions")
         if any(len(s["levels"]) >= 3 for s in specs):
             ctx.count("depth3_sessions")
+        if case.get("lag"):
+            # hostile start: the BLOB link delivers nothing to the client for a while (a congested second connection), the control
+            # link runs, and the drivers change state before the client's enableBLOB messages have been processed
+            lrng = ctx.rng("lag", case["i"])
+            blob_wire = client._vf_links[1].s2c
+            blob_wire.hold = True
+            ctx.count("sessions_with_lagging_blob_link")
+            for rnd in range(case["lag"]):
+                sess.pump()
+                await asyncio.sleep(0)
+                if lrng.random() < 0.5:
+                    k = lrng.randrange(len(specs))
+                    op = H.gen_driver_op(lrng, k, specs[k])
+                    try:
+                        H.apply_driver_op(drivers[k], specs[k], op)
+                        tracks[k].apply(op)
+                    except Exception as e:
+                        ctx.violate(f"driver-operation-raises:{op[0]}:{type(e).__name__}", f"{op} raised {e!r}", case, {"step": f"lag{rnd}"})
+                        return False, 0, 0
+                    ctx.count("driver_ops_during_handshake")
+            # let the fast connection finish, THEN release the lagging one: its stale copies arrive last
+            for _ in range(200):
+                moved = sess.pump()
+                await asyncio.sleep(0)
+                if not moved:
+                    break
+            blob_wire.hold = False
         if not await checkpoint(ctx, case, sess, client, drivers, specs, tracks, mirror, snooper, "handshake", tap):
             return False, 0, 0
         ndrv = ncli = 0
